@@ -38,7 +38,7 @@ prop("C02", [RO.rule_EF1, RO.rule_OR2_responder, RO.rule_CR, RO.rule_OR2_gatekee
      "owner removal precedes Watcher/Responder and cascades in the DB, foreign keys switched on in the production constructor (OR1, OR2g, SQ1); a cache hit is acted on inside the same locator-cache critical section that found it, so the disconnect purge cannot run between look-up and broadcast (AT1). "
      "NOT decided: that exactly the disconnected block's entries are purged (container contents, C19).",
      technique="who-may-call + interprocedural origin tracing + SQL schema tables")
-prop("C03", [RO.rule_OR3, LK.rule_CBS, RO.rule_OR2_watcher, SQ.rule_SQ3, SQ.rule_SQ1, SQ.rule_SQ5_tower, LK.rule_AT2, RO.rule_OR2_gatekeeper, ED.rule_ED, DX.rule_DX],
+prop("C03", [RO.rule_OR3, CF.rule_CF_switches, LK.rule_CBS, RO.rule_OR2_watcher, SQ.rule_SQ3, SQ.rule_SQ1, SQ.rule_SQ5_tower, LK.rule_AT2, RO.rule_OR2_gatekeeper, ED.rule_ED, DX.rule_DX],
      STATIC + "Decided (ordering of durable effects, what crash-safety rests on): last-known-block written by one function only on Ok(Better(tip)) of the poll that delivered the blocks; "
      "bootstrap poll before any API is spawned; tower key regenerated only if --overwritekey or none stored (OR3); slots charged (successfully) before the store (CBS); "
      "multi-statement writes are one committed sqlite transaction (SQ3); cascades on (SQ1); one critical section and one DB delete per balance update (AT2); "
@@ -50,7 +50,7 @@ prop("C04", [RO.rule_OR2_responder, RO.rule_CR, RO.rule_EF2, RO.rule_EF3, SQ.rul
      "InMempoolSince(height - 6) (OR2r); refund flag constant and true exactly for check_confirmations' list (EF2); constants 100/6 (EF3); the refund persisted with the deletion is the balance after every addition (SL); the confirmation height taken from the index is the block's chain height in every reachable index state (TH). "
      "NOT decided: arithmetic over chain evolutions (off-by-one of the completion height, cadence, status after a reorg of depth d).",
      technique="MIR path facts + comparison-shape and constant-origin rules")
-prop("C05", [PL.rule_PL1, PL.rule_PL3, PL.rule_PL7, PN.rule_PN_plugin, SQ.rule_SQ5_client],
+prop("C05", [PL.rule_PL1, PL.rule_PL3, PL.rule_PL7, PN.rule_PN_plugin, SQ.rule_SQ5_client, PL.rule_PT],
      STATIC + "Decided: every reply class of the per-tower loop ends in a durable record (PL1); pending->accepted/invalid adds before it deletes (PL3); mutators persist on the known-tower path, "
      "only mutators write, pending work is re-queued at start-up and on idle wake-up, loaders agree (PL7); no tower reply or repeated notification reaches an unwrap (PNp). "
      "NOT decided: SIGKILL durability, exactly-one-of accounting across towers over a history.",
@@ -89,7 +89,7 @@ prop("C12", [OUT.rule_OUT, LK.rule_LK2],
      STATIC + "Decided: both Carrier RPC wrappers wait for reachability first; a transport error flags the outage and re-issues the same call, never yields a verdict; the monitor sets the flag true + notify_all "
      "on every Ok poll and false on transient errors; every public handler enters the Watcher only after the 503 gate (OUT); the waker can reach its notify (LK2). NOT decided: that retries eventually succeed; timing.",
      technique="variant-fact dataflow on error arms + call-graph reachability of the only notifier")
-prop("C13", [PL.rule_PL6, PL.rule_PL2, PL.rule_PL7, PL.rule_PL8],
+prop("C13", [PL.rule_PL6, PL.rule_PL2, PL.rule_PL7, PL.rule_PL8, PL.rule_PT],
      STATIC + "Decided: who may feed / wake / create / start a retrier (one per tower, start only if stopped with pending data, wake only idle ones, Stale only when retryable and no retrier) (PL6); every reply class in "
      "Retrier::run makes progress or leaves; run only under the bounded exponential back-off built from the configured values (PL2); reload on start and on idle wake-up (PL7); each outcome arm sets the documented status, "
      "predicate tables (PL8). NOT decided: delays, the back-off schedule, 'within the configured delays'.",
